@@ -33,8 +33,9 @@ CONSTANTS
   Vals(_, _),   \* Vals(N, n): shift values in quarter bins for an n-entry shift array
   Fixed         \* TRUE: repaired zero loop; FALSE: loop of the current tree
 
-VARIABLES phase, N, ssh, shsh, S, over, out
-vars == <<phase, N, ssh, shsh, S, over, out>>
+VARIABLES phase, N, ssh, shsh, S, over, out,
+          prev      \* layout (shift shape) of the previous call of the session, NoPrev for a first call
+vars == <<phase, N, ssh, shsh, S, over, out, prev>>
 
 Meta0 == [t0 |-> 0, per |-> 4, cls |-> "BasebandSignal", dtype |-> "in", cf |-> 0, align |-> "center"]
 
@@ -48,14 +49,27 @@ Op(n, sh, P, s, ov) ==
 
 Init == /\ phase = "cfg"
         /\ N \in Ns /\ ssh \in SShapes /\ shsh \in ShiftShapes(ssh)
-        /\ S = <<>> /\ out = <<>> /\ over = FALSE
-Next == /\ phase = "cfg"
+        /\ S = <<>> /\ out = <<>> /\ over = FALSE /\ prev = NoPrev
+Call == /\ phase = "cfg"
         /\ phase' = "done"
         /\ over' \in BOOLEAN
         /\ LET P == PadF(shsh, Len(ssh))
            IN /\ S' \in [Elems(P) -> Vals(N, Cardinality(Elems(P)))]
               /\ out' = Op(N, ssh, P, S', over')
-        /\ UNCHANGED <<N, ssh, shsh>>
+        /\ UNCHANGED <<N, ssh, shsh, prev>>
+\* a second call on a like signal: the same values on another broadcast layout
+\* (per channel [[a],[b]] then per polarisation [[a,b]])
+Relayout ==
+  /\ phase = "done" /\ prev = NoPrev
+  /\ \E t \in ShiftShapes(ssh) :
+       LET P == PadF(shsh, Len(ssh))
+           P2 == PadF(t, Len(ssh))
+       IN /\ P2 # P /\ Cardinality(Elems(P2)) = Cardinality(Elems(P))
+          /\ shsh' = t /\ prev' = shsh
+          /\ S' = Relaid(S, P, P2)
+          /\ out' = Op(N, ssh, P2, S', over)
+  /\ UNCHANGED <<phase, N, ssh, over>>
+Next == Call \/ Relayout
 Spec == Init /\ [][Next]_vars
 
 P0 == PadF(shsh, Len(ssh))
